@@ -104,6 +104,7 @@ impl Engine for HrLiveEngine {
         if idx == 17 { return vec!["hr.update 3 0*1 1*2 / 2 / 1".into()]; }
         if idx == 18 { return vec!["hr.bulk 300".into()]; }
         if idx == 19 || (idx > 19 && idx % 15 == 4) { return vec![format!("hr.static {}", rng.range(1, 4))]; }
+        if idx == 20 || (idx > 20 && idx % 15 == 9) { return vec![format!("hr.fsodd {}", rng.range(1, 3))]; }
         if rng.chance(1, 12) {
             let n = *rng.pick(if thorough { &[1usize, 100, 129, 300, 1000, 3000][..] } else { &[40usize, 300][..] });
             return vec![format!("hr.bulk {n}")];
@@ -225,6 +226,25 @@ impl Engine for HrLiveEngine {
                         }
                         Exit::Timeout => { rec.oracle_fail(format!("child-timeout `{line}`")); rec.op(line.clone(), "timeout"); }
                     }
+                }
+                "hr.fsodd" => {
+                    // the default FileSystem source, a recursively loaded directory, and entries with unusual (hidden) names that
+                    // appear later: the reload of the directory listing must return (no unbounded recursion, no abort)
+                    let k = match w.get(1).and_then(|x| x.parse::<usize>().ok()) { Some(k) if w.len() == 2 && (1..=8).contains(&k) => k, _ => { rec.op(line.clone(), "bad-op"); rec.stat("malformed"); continue; } };
+                    rec.nontrivial = true;
+                    rec.stat("fsodd/hidden-entries-appear");
+                    let out = child::run_child("hrlive", line);
+                    let _ = std::fs::remove_dir_all(std::env::temp_dir().join(format!("amh-hrlive-{}", out.pid)));
+                    for o in &out.oracle { rec.oracle_fail(o.clone()); }
+                    let res = match &out.exit {
+                        Exit::Code(0) => out.results.iter().find(|r| r.starts_with("returned ")).cloned().unwrap_or_else(|| "no-result".into()),
+                        Exit::Code(c) => { rec.oracle_fail(format!("child-failed exit code {c}: {}", out.stderr.lines().last().unwrap_or(""))); format!("child-exit-{c}") }
+                        Exit::Signal(sig) => { rec.oracle_fail(format!("child-crashed `{line}`: killed by signal {sig} while a directory tree with hidden entries was (re)loaded")); "aborted".into() }
+                        Exit::Blocked(snap) => { rec.oracle_fail(format!("single-caller-never-answered `{line}`: hot_reload() never returned; threads {snap:?}")); "blocked".into() }
+                        Exit::Timeout => { rec.oracle_fail(format!("child-timeout `{line}`")); "timeout".into() }
+                    };
+                    if res != format!("returned {k}") && !res.starts_with("child") && res != "aborted" && res != "blocked" && res != "timeout" { rec.oracle_fail(format!("single-caller-never-answered `{line}`: {res}")); }
+                    rec.op(line.clone(), res);
                 }
                 "hr.static" => {
                     // a `'static` cache after enhance_hot_reloading(): hot_reload() is documented as a no-op there, it must still return
@@ -415,6 +435,41 @@ fn child_bulk(n: usize) {
     println!("R returned {cached}");
 }
 
+fn child_fsodd(k: usize) {
+    crate::exec_world::quiet_panics();
+    let base = std::env::temp_dir().join(format!("amh-hrlive-{}", std::process::id()));
+    let root = base.join("root");
+    std::fs::create_dir_all(root.join("lvl").join("sub")).unwrap();
+    std::fs::write(root.join("lvl").join("a.txt"), b"a").unwrap();
+    std::fs::write(root.join("lvl").join("sub").join("b.txt"), b"b").unwrap();
+    let cache = AssetCache::new(&root).expect("AssetCache::new");
+    if let Err(e) = cache.load_rec_dir::<String>("lvl") { println!("O child-load-failed lvl: {}", canon_error(&e)); }
+    progress();
+    let mut n = 0;
+    for round in 0..k {
+        // hidden directory with content, hidden file, editor swap file: none of them is an asset, all of them are events
+        let hid = root.join("lvl").join(format!(".thumbnails{round}"));
+        let _ = std::fs::create_dir_all(hid.join("deeper"));
+        let _ = std::fs::write(hid.join("t.txt"), b"t");
+        let _ = std::fs::write(root.join("lvl").join(format!(".hidden{round}.txt")), b"h");
+        let _ = std::fs::write(root.join("lvl").join(format!("c{round}.txt")), b"c");
+        let _ = std::fs::write(root.join("lvl").join("sub").join(".b.txt.swp"), b"s");
+        std::thread::sleep(std::time::Duration::from_millis(150));
+        cache.hot_reload();
+        n += 1;
+        progress();
+        // and a first load of the same tree (the listing is rebuilt from scratch)
+        let fresh = AssetCache::new(&root).expect("AssetCache::new");
+        let _ = fresh.load_rec_dir::<String>("");
+        progress();
+    }
+    let ids = cache.load_rec_dir::<String>("lvl").map(|h| h.read().ids().count()).unwrap_or(0);
+    if ids < 2 + k { println!("O bulk-reload-incomplete the recursive listing of lvl has {ids} ids after {k} rounds of new files, expected at least {}", 2 + k); }
+    drop(cache);
+    let _ = std::fs::remove_dir_all(&base);
+    println!("R returned {n}");
+}
+
 fn child_static(k: usize) {
     crate::exec_world::quiet_panics();
     let src = MemSource::new(true);
@@ -442,6 +497,7 @@ pub fn child_main(line: &str) {
     match w.first().copied() {
         Some("hr.update") => match parse_update(&w) { Some(op) => child_update(&op), None => std::process::exit(3) },
         Some("hr.bulk") => match parse_bulk(&w) { Some(n) => child_bulk(n), None => std::process::exit(3) },
+        Some("hr.fsodd") => match w.get(1).and_then(|x| x.parse::<usize>().ok()) { Some(k) => child_fsodd(k), None => std::process::exit(3) },
         Some("hr.static") => match w.get(1).and_then(|x| x.parse::<usize>().ok()) { Some(k) => child_static(k), None => std::process::exit(3) },
         Some("hr.conc") => match parse_conc(&w) { Some((t, c, l, e)) => child_conc(t, c, l, e), None => std::process::exit(3) },
         _ => std::process::exit(3),
